@@ -251,6 +251,50 @@ def racing_conversations(seed, n):
     return out
 
 
+def idle_conversations(seed, n, end=True):
+    """Idle periods of many heartbeat cycles with an occasional send either way, time advancing
+    in steps of 1-3 ticks (for the pre-emptive hub: every PING / PONG exchange then happens under
+    a schedule of its own, e.g. the ping thread descheduled right after queueing its PING while
+    the PONG comes back)."""
+    rng = random.Random(seed)
+    out = []
+    for i in range(n):
+        sc = [{'op': 'connect', 'tr': ('poll', 'both', 'ws')[i % 3]}, {'op': 'tick', 't': 1}]
+        now = 1
+        for _ in range(rng.randint(20, 40)):
+            r = rng.random()
+            if r < 0.15:
+                sc.append({'op': 'ssend', 'k': 1})
+            elif r < 0.25:
+                sc.append({'op': 'csend', 'k': 1})
+            else:
+                now += rng.choice([1, 1, 2, 3])
+                sc.append({'op': 'tick', 't': now})
+        if end:
+            sc += [{'op': 'cdisc'}, {'op': 'tick', 't': now + 60}]
+        out.append(sc)
+    return out
+
+
+IDLE_HB = [(4, 2), (4, 8), (3, 1), (8, 4)]
+
+
+def run_idle_preempt(ck, seed, n, end=True):
+    """Threaded client and threaded server on one pre-emptive hub through idle periods;
+    returns (traces, metas) for validation against the end-to-end contract."""
+    traces, metas = [], []
+    for k, sc in enumerate(idle_conversations(seed, n, end)):
+        pi, pt = IDLE_HB[k % len(IDLE_HB)]
+        scfg = {'ping_interval': pi, 'ping_timeout': pt, 'monitor': k % 2 == 0}
+        sseed = seed * 2003 + k
+        steps, facts = e2e.run_conversation('sync', 'sync', scfg, sc, seed=sseed, preempt=True)
+        traces.append(to_trace(steps))
+        metas.append({'pair': facts['pair'], 'transports': sc[0]['tr'], 'hb': [pi, pt], 'script': sc,
+                      'schedule_seed': sseed, 'preempt': True, 'scfg': scfg})
+        ck.distinct([facts['pair'], 'idle-preempt', k, sseed])
+    return traces, metas
+
+
 def run(tier):
     ck = Check('C10', tier)
     th = tier == 'thorough'
@@ -333,6 +377,19 @@ def run(tier):
         ck.distinct([facts['pair'], 'racing', k])
         if facts['client_calls_blocked']:
             blocked.append((metas[-1], facts['client_calls_blocked']))
+    # ... and through idle periods of many heartbeat cycles: every PING / PONG exchange under a
+    # schedule of its own
+    itr, imeta = run_idle_preempt(ck, seed + 70, 36 if not th else 150)
+    for tr, m_ in zip(itr, imeta):
+        tr, hit = f27_normalise(tr)
+        if hit:
+            opn, _ = load_known_findings('C10')
+            f27 = [e for e in opn if e['id'] == 'F27']
+            if f27:
+                ck.known_finding('F27', f27[0]['what'])
+                ck.cov['f27_schedules'] = ck.cov.get('f27_schedules', 0) + 1
+        traces.append(tr)
+        metas.append(m_)
     v = tracecheck.validate('EioE2ETrace', traces, constants={'MaxMsg': 100000}, batch=400)
     ck.cov['states'] += v.states
     ck.cov['transitions'] += v.generated
@@ -439,14 +496,15 @@ def explain(tr):
     return 'rejected (no single reason found)'
 
 
-def replay(path):
+def replay(path, pid='C10'):
     import json
     rp = json.load(open(path))
     m = rp['meta']
     cimpl = m['pair'].split('-client/')[0]
     simpl = m['pair'].split('/')[1].split('-server')[0]
-    steps, facts = e2e.run_conversation(cimpl, simpl, {'ping_interval': m['hb'][0],
-                                                        'ping_timeout': m['hb'][1]}, m['script'],
+    steps, facts = e2e.run_conversation(cimpl, simpl, m.get('scfg') or
+                                        {'ping_interval': m['hb'][0], 'ping_timeout': m['hb'][1]},
+                                        m['script'],
                                         latency=m.get('latency', 0),
                                         http_latency=m.get('http_latency', 0),
                                         seed=m.get('schedule_seed', 0), preempt=m.get('preempt', False))
@@ -462,5 +520,5 @@ def replay(path):
         print('replay: %s' % explain(tr))
     else:
         print('replay: not a behaviour of EioSystem: %s' % json.dumps(diagnose_sys(tr, mode))[:3000])
-    print('VIOLATION property=C10 replay=%s' % path)
+    print('VIOLATION property=%s replay=%s' % (pid, path))
     return 1
